@@ -300,16 +300,123 @@ Proof.
 Qed.
 End GmresField.
 
-(* FULL STATEMENT (unproved): minimal residual.  For one restart cycle started at x with
-   r0 = (P)(f - A x), beta = ||r0|| <> 0, with sqrt exact at every argument it is applied to (so that
-   the basis v_0..v_j is orthonormal and all rotations are unit) and no breakdown (H(i+1,i) <> 0, i < j):
-     for every y : nat -> S,   || r0 - K (sum_{i<j} y_i v_i) ||^2  >=  s_j^2,
-     with equality for y = backsub H (rev (seq 0 j)) s  (the update the code applies),
-   hence the true residual norm of the iterate returned with maxiter = j equals |s_j| and is
-   non-increasing in j.  Proved above: the Arnoldi relation, orthonormality, unit rotations, annihilation
-   and the monotonicity of |s_j|; not proved: the least-squares argument that links |s_j| with the
-   true residual (needs the product of the rotations as an isometry of S^{j+1}).  Tested on the
-   implementation: tools/props/C05.py (monotone returned residual; reference comparison). *)
+(* ---- GMRES: the minimal-residual theorem, in abstract form (KrylovMathLsq.v).
+   v_0..v_j orthonormal, Arnoldi relations K v_c = sum_l h_c(l) v_l (c < j), r0 = sum_l g(l) v_l
+   (g = beta e_0), unit rotations (cs_l, sn_l) in the planes (l, l+1) whose product Q maps every column
+   h_c to a vector with zero entry j.  These are exactly the per-iteration facts proved on the model
+   above (C05_gmres_arnoldi_relation, C05_gmres_basis_stays_orthonormal, C05_givens_coefficients_unit,
+   C05_givens_annihilates).  Then NO element of x0 + span(v_0..v_{j-1}) has a residual smaller than
+   |(Q g)_j| = |s_j|, and the y solving the triangular system R y = (Q g)_{<j} attains it. ---- *)
+From Amgcl Require Import KrylovMathLsq.
+Section GmresMinRes.
+Variable S : Scalar.
+Hypothesis Srt : Sring S.
+Hypothesis Sreal : forall x : S, sadj x = x.
+Variable n : nat.
+Variable v : nat -> vec S.
+Variable K : vec S -> vec S.
+Hypothesis K_len : forall x, length x = n -> length (K x) = n.
+Hypothesis K_lin : linear_on n K.
+Variable j : nat.
+Variables (g : nat -> S) (h : nat -> nat -> S) (cs sn : nat -> S) (r0 : vec S).
+Hypothesis Lv : forall l, l <= j -> length (v l) = n.
+Hypothesis ON : forall a b, a <= j -> b <= j -> rdot (v a) (v b) = if Nat.eqb a b then s1 else s0.
+Hypothesis AR : forall c, c < j -> K (v c) = comb n v (h c) (Datatypes.S j).
+Hypothesis R0 : r0 = comb n v g (Datatypes.S j).
+
+(* the true residual norm is the norm of the small least-squares residual *)
+Theorem C05_gmres_residual_norm_is_hessenberg_residual_norm (y : nat -> S) :
+  let r := vsub r0 (K (comb n v y j)) in
+  rdot r r = sumsq (fun l => g l - sumn (fun c => y c * h c l) j) (Datatypes.S j).
+Proof. exact (arnoldi_residual_norm Srt Sreal n v K K_len K_lin j g h r0 y Lv ON AR R0). Qed.
+
+Hypothesis U : forall l, l < j -> cs l * cs l + sn l * sn l = s1.
+Hypothesis Z : forall c, c < j -> Qn cs sn j (h c) j = s0.
+
+(* Givens QR: || g - H y ||^2 = (Q g)_j^2 + || (Q g)_{<j} - R y ||^2 *)
+Theorem C05_gmres_givens_least_squares_identity (y : nat -> S) :
+  sumsq (fun i => g i - sumn (fun c => y c * h c i) j) (Datatypes.S j) =
+  Qn cs sn j g j * Qn cs sn j g j +
+  sumsq (fun i => Qn cs sn j g i - sumn (fun c => y c * Qn cs sn j (h c) i) j) j.
+Proof. exact (givens_lsq_identity Srt cs sn j g h y U Z). Qed.
+
+Theorem C05_gmres_minimal_residual_attained (y : nat -> S) :
+  (forall i, i < j -> sumn (fun c => y c * Qn cs sn j (h c) i) j = Qn cs sn j g i) ->
+  let r := vsub r0 (K (comb n v y j)) in
+  rdot r r = Qn cs sn j g j * Qn cs sn j g j.
+Proof. exact (gmres_minimal_residual_attained Srt Sreal n v K K_len K_lin j g h cs sn r0 Lv ON AR R0 U Z y). Qed.
+
+Hypothesis Ord : ordered S.
+Theorem C05_gmres_minimal_residual_lower_bound (y : nat -> S) :
+  let r := vsub r0 (K (comb n v y j)) in
+  ole (Qn cs sn j g j * Qn cs sn j g j) (rdot r r).
+Proof. exact (gmres_minimal_residual_lower_bound Srt Sreal Ord n v K K_len K_lin j g h cs sn r0 Lv ON AR R0 U Z y). Qed.
+End GmresMinRes.
+
+(* ---- ... and ON THE MODEL (KrylovMathMinres.v): j passes of the inner loop of gmres.hpp (Krylov.gm_body,
+   both preconditioning sides) started from a workspace w0 that holds the unit vector v_0 and s = beta e_0.
+   W i = workspace after i passes, V = its basis, Kop = P A or A P, Kv i = Kop v_i.  Hypotheses on the run,
+   i < j: no breakdown (H(i+1,i) <> 0), sqrt exact at <w',w'>, stored rotation unit (C05_givens_coefficients_unit:
+   sqrt exact at its one argument), dx <> 0 in the third branch of generate_plane_rotation.
+   Then s_j^2 is a LOWER BOUND for the squared residual norm of every element of x + (P) span(v_0..v_{j-1}),
+   attained by every y that solves the triangular system held in H and s. ---- *)
+From Amgcl Require Import KrylovMathMinres.
+Section GmresModelMinRes.
+Variable S : Scalar.
+Hypothesis Sft : Sfield S.
+Hypothesis Seqb : seqb_spec S.
+Hypothesis Sreal : forall x : S, sadj x = x.
+Hypothesis HofQ0 : sofQ (0 # 1)%Q = @s0 S.
+Hypothesis HofQ1 : sofQ (1 # 1)%Q = @s1 S.
+Variable n : nat.
+Variables A P : vec S -> vec S.
+Variable left : bool.
+Hypothesis K_len : forall x, length x = n -> length (Kop A P left x) = n.
+Hypothesis K_lin : linear_on n (Kop A P left).
+Variable w0 : @gm_ws S.
+Variable j : nat.
+Hypothesis Lv0 : length (g_v w0 0) = n.
+Hypothesis ON0 : rdot (g_v w0 0) (g_v w0 0) = s1.
+Hypothesis Hs0 : forall l, 0 < l -> g_s w0 l = s0.
+Hypothesis Hh : forall i, i < j -> arn_h (W A P left w0 i) i (Kv A P left w0 i) <> s0.
+Hypothesis Hx : forall i, i < j ->
+  arn_h (W A P left w0 i) i (Kv A P left w0 i) * arn_h (W A P left w0 i) i (Kv A P left w0 i) =
+  rdot (arn_w (W A P left w0 i) i (Kv A P left w0 i)) (arn_w (W A P left w0 i) i (Kv A P left w0 i)).
+Hypothesis Hu : forall i, i < j ->
+  unit_rot (g_cs (W A P left w0 (Datatypes.S i)) i) (g_sn (W A P left w0 (Datatypes.S i)) i).
+Hypothesis Hd : forall i, i < j ->
+  let dx := tail_H3 (Wb A P left w0 i) i (Kv A P left w0 i) i i in
+  let dy := tail_H3 (Wb A P left w0 i) i (Kv A P left w0 i) (Datatypes.S i) i in
+  is_zero dy = false -> sltb (sabs dx) (sabs dy) = false -> dx <> s0.
+
+Theorem C05_gmres_model_residual_attained (y : nat -> S) :
+  (forall i, i < j -> sumn (fun c => y c * Qn (g_cs (W A P left w0 j)) (g_sn (W A P left w0 j)) j (hbar A P left w0 c) i) j
+                      = g_s (W A P left w0 j) i) ->
+  let r := vsub (vscal (g_s w0 0) (g_v w0 0)) (Kop A P left (comb n (V A P left w0 j) y j)) in
+  rdot r r = g_s (W A P left w0 j) j * g_s (W A P left w0 j) j.
+Proof.
+  exact (gm_residual_attained Sft Seqb Sreal HofQ0 HofQ1 n A P left K_len K_lin w0 j Lv0 ON0 Hh Hx Hu Hd Hs0 y).
+Qed.
+
+Hypothesis Ord : ordered S.
+Theorem C05_gmres_model_residual_lower_bound (y : nat -> S) :
+  let r := vsub (vscal (g_s w0 0) (g_v w0 0)) (Kop A P left (comb n (V A P left w0 j) y j)) in
+  ole (g_s (W A P left w0 j) j * g_s (W A P left w0 j) j) (rdot r r).
+Proof.
+  exact (gm_residual_lower_bound Sft Seqb Sreal HofQ0 HofQ1 n A P left K_len K_lin w0 j Lv0 ON0 Hh Hx Hu Hd Ord Hs0 y).
+Qed.
+End GmresModelMinRes.
+
+(* FULL STATEMENT (unproved part).  For one restart cycle of Krylov.gm_cycle started at x with
+   r0 = (P)(f - A x), beta = norm_b r0 <> 0, under the hypotheses of the section above:
+     the vector sv = backsub (g_H w) (rev (seq 0 j)) (g_s w) computed by the code satisfies the triangular system of
+     C05_gmres_model_residual_attained (the stored g_H(i,c), i <= c, are the entries (Q hbar_c)_i), and
+     k_lin_comb (cv_of sv (g_v w) j) forms sum_c sv_c v_c, so that the true (preconditioned) residual norm of the x
+     returned with maxiter = j is |s_j|, the minimum over x + (P) span(v_0..v_{j-1}), and is non-increasing in j.
+   Proved: the lower bound and its attainment by every solution of the triangular system (on the model), all
+   per-iteration facts, and the monotonicity of |s_j|.  Not proved: correctness of backsub / k_lin_comb (that the
+   code's y is such a solution) and the identification of the outer-loop residual with beta v_0.
+   Tested on the implementation: tools/props/C05.py (Petrov-Galerkin oracle, monotone returned residual, reference). *)
 
 (* ---- closed instances at the exact rationals ---- *)
 Theorem C05_cg_minimises_A_norm_error_over_krylov_space_Qc n (A P : vec QcS -> vec QcS) f x0 xs prm junk nr r w :
@@ -406,3 +513,63 @@ Example C05_gmres_arnoldi_hypotheses_satisfiable :
   (forall a b, a <= 0 -> b <= 0 -> rdot (g_v wG a) (g_v wG b) = if Nat.eqb a b then s1 else s0) /\
   arn_h wG 0 Kv * arn_h wG 0 Kv = rdot (arn_w wG 0 Kv) (arn_w wG 0 Kv).
 Proof. exact gmres_arnoldi_hypotheses_satisfiable. Qed.
+
+(* ---- the C05-B oracle is sound for the model: the four boolean checks of KrylovMathSpec.v that
+   tools/props/C05.py evaluates (extracted) on the IMPLEMENTATION's iterates x_0..x_K hold for the
+   MODEL's iterates whenever there is no breakdown.  A failing oracle line therefore means that the
+   implementation's iterates are not those of the recurrence proved optimal above. ---- *)
+From Amgcl Require Import KrylovMathSpec KrylovMathSound.
+Theorem C05_cg_oracle_accepts_model_iterates (S : Scalar) (Sft : Sfield S) (Seqb : seqb_spec S)
+  (Sreal : forall x : S, sadj x = x) (Ord : ordered S) n (A P : vec S -> vec S) f x0 xsol K :
+  (forall v, length v = n -> length (A v) = n) -> (forall v, length v = n -> length (P v) = n) ->
+  (forall x y, length x = n -> length y = n -> rdot (A x) y = rdot x (A y)) ->
+  (forall x y, length x = n -> length y = n -> rdot (P x) y = rdot x (P y)) ->
+  linear_on n A -> linear_on n P -> (forall v, length v = n -> ole s0 (rdot v (A v))) ->
+  length f = n -> length x0 = n -> length xsol = n -> A xsol = f ->
+  nobreak A P f x0 K ->
+  let iterates := map (fun k => xk A P f x0 k) (seq 0 (Datatypes.S K)) in
+  cg_res_orth_ok A P f iterates = true /\ cg_dir_conj_ok A iterates = true /\
+  cg_galerkin_ok A P f iterates = true /\ cg_opt_ok A P f xsol iterates = true.
+Proof.
+  exact (fun HA HP SA SP LA LP Apsd Lf Lx Lxs Hxs =>
+    cg_oracle_accepts_model_iterates Sft Seqb Sreal Ord n A P HA HP SA SP LA LP Apsd f x0 xsol Lf Lx Lxs Hxs K).
+Qed.
+Print Assumptions C05_cg_oracle_accepts_model_iterates.
+
+Print Assumptions C05_gmres_residual_norm_is_hessenberg_residual_norm.
+Print Assumptions C05_gmres_givens_least_squares_identity.
+Print Assumptions C05_gmres_minimal_residual_attained.
+Print Assumptions C05_gmres_minimal_residual_lower_bound.
+Example C05_gmres_minimal_residual_hypotheses_satisfiable :
+  (forall x, length x = 3 -> length (AG x) = 3) /\ linear_on 3 AG /\
+  (forall l, l <= 1 -> length (vE l) = 3) /\
+  (forall a b, a <= 1 -> b <= 1 -> rdot (vE a) (vE b) = if Nat.eqb a b then s1 else s0) /\
+  (forall c, c < 1 -> AG (vE c) = comb 3 vE (hE c) 2) /\
+  [s1; s0; s0] = comb 3 vE gE 2 /\
+  (forall l, l < 1 -> csE l * csE l + snE l * snE l = s1) /\
+  (forall c, c < 1 -> Qn csE snE 1 (hE c) 1 = s0).
+Proof. exact gmres_minres_hypotheses_satisfiable. Qed.
+Example C05_gmres_minimal_residual_example : forall y : nat -> QcS,
+  let r := vsub [s1; s0; s0] (AG (comb 3 vE y 1)) in ole (qc 16 25) (rdot r r).
+Proof. exact gmres_minres_example. Qed.
+
+Print Assumptions C05_gmres_model_residual_attained.
+Print Assumptions C05_gmres_model_residual_lower_bound.
+Example C05_gmres_model_minimal_residual_hypotheses_satisfiable :
+  length (g_v wG 0) = 3 /\ rdot (g_v wG 0) (g_v wG 0) = s1 /\
+  (forall i, i < 1 -> arn_h (W AG Pid false wG i) i (Kv AG Pid false wG i) <> s0) /\
+  (forall i, i < 1 ->
+     arn_h (W AG Pid false wG i) i (Kv AG Pid false wG i) * arn_h (W AG Pid false wG i) i (Kv AG Pid false wG i) =
+     rdot (arn_w (W AG Pid false wG i) i (Kv AG Pid false wG i)) (arn_w (W AG Pid false wG i) i (Kv AG Pid false wG i))) /\
+  (forall i, i < 1 -> unit_rot (g_cs (W AG Pid false wG (Datatypes.S i)) i) (g_sn (W AG Pid false wG (Datatypes.S i)) i)) /\
+  (forall i, i < 1 ->
+     let dx := tail_H3 (Wb AG Pid false wG i) i (Kv AG Pid false wG i) i i in
+     let dy := tail_H3 (Wb AG Pid false wG i) i (Kv AG Pid false wG i) (Datatypes.S i) i in
+     is_zero dy = false -> sltb (sabs dx) (sabs dy) = false -> dx <> s0) /\
+  (forall l, 0 < l -> g_s wG l = s0).
+Proof. exact gmres_model_minres_hypotheses_satisfiable. Qed.
+Example C05_gmres_model_minimal_residual_example : forall y : nat -> QcS,
+  let r := vsub (vscal (g_s wG 0) (g_v wG 0)) (Kop AG Pid false (comb 3 (V AG Pid false wG 1) y 1)) in
+  ole (g_s (W AG Pid false wG 1) 1 * g_s (W AG Pid false wG 1) 1) (rdot r r) /\
+  g_s (W AG Pid false wG 1) 1 * g_s (W AG Pid false wG 1) 1 = qc 16 25.
+Proof. exact gmres_model_minres_example. Qed.
